@@ -21,6 +21,7 @@ from . import mnemonic as _m
 
 # --------------------------------------------------------------------------- GF(256)
 RIJNDAEL = 0x11B
+from ._rec import recursive
 
 
 def clmul(a, b):
@@ -198,6 +199,15 @@ def rs1024_step(chk, v):
     for i in range(10):
         chk ^= GEN[i] * ((b >> i) & 1)
     return chk
+
+
+@recursive(returns="int:30", fuel=1)
+def rs1024_rec(values, k):
+    """the RS1024 checksum register after the first k ten-bit symbols, by recursion on k (one rs1024_step per symbol,
+    from the register 1)"""
+    if k == 0:
+        return 1
+    return rs1024_step(rs1024_rec(values, k - 1), values[k - 1])
 
 
 def rs1024_verify(data):
